@@ -88,7 +88,7 @@ fn verif_native_vector_identity_witness() {
     std::panic::set_hook(Box::new(|_| {}));
     let mut n = 0;
     let mut bad: Vec<String> = Vec::new();
-    let cases: [(&str, &str); 14] = [
+    let cases: [(&str, &str); 17] = [
         // aliases through variables, arguments, elements of vectors and lists
         ("(define v (vector 1 2 3)) (define w v) (vector-set! w 0 9) (vector-ref v 0)", "value 9"),
         ("(define v (vector 1 2 3)) (define (poke x) (vector-set! x 1 8)) (poke v) (vector-ref v 1)", "value 8"),
@@ -100,6 +100,10 @@ fn verif_native_vector_identity_witness() {
         // a stored element IS the object that was stored, also when it equals the old one
         ("(define a (vector 1)) (define b (vector 1)) (define v (vector a)) (vector-set! v 0 b) (vector-set! b 0 9) (vector-ref (vector-ref v 0) 0)", "value 9"),
         ("(define a (vector 1)) (define b (vector 1)) (define v (vector a)) (vector-set! v 0 b) (eqv? (vector-ref v 0) b)", "value #t"),
+        // ... also when the stored vector's contents equal the target's at that moment, and when a vector is stored into itself
+        ("(define a (vector 1 2)) (define b (vector 1 2)) (vector-set! a 0 b) (vector-set! b 1 9) (vector-ref (vector-ref a 0) 1)", "value 9"),
+        ("(define a (make-vector 2 0)) (define b (make-vector 2 0)) (vector-set! a 0 b) (vector-set! (vector-ref a 0) 1 7) (vector-ref b 1)", "value 7"),
+        ("(define v (vector 1 2)) (vector-set! v 0 v) (vector-set! v 1 7) (vector-ref (vector-ref v 0) 1)", "value 7"),
         // distinct vectors never observe each other
         ("(define a (vector 1 2)) (define b (vector 1 2)) (vector-set! a 0 9) (vector-ref b 0)", "value 1"),
         ("(define a (make-vector 2 0)) (define b (make-vector 2 0)) (vector-set! a 0 9) (vector-ref b 0)", "value 0"),
